@@ -17,3 +17,14 @@ func VerifNewLMTP(port string) *Downstream {
 		log:       log.Logger{Out: log.NopOutput{}},
 	}
 }
+
+// VerifNewDownstream is the real target.smtp (lmtp=false) or target.lmtp forwarder for one
+// plain-TCP endpoint on 127.0.0.1.
+func VerifNewDownstream(port string, lmtp bool) *Downstream {
+	d := VerifNewLMTP(port)
+	if !lmtp {
+		d.modName = "target.smtp"
+		d.lmtp = false
+	}
+	return d
+}
